@@ -2,7 +2,9 @@ package props
 
 import (
 	"fmt"
+	"regexp"
 	"testing"
+	"unicode/utf8"
 
 	"pgregory.net/rapid"
 
@@ -338,6 +340,20 @@ func c19Gen(t *rapid.T) C19Case {
 	}
 	c.F = c19GenFilter(t, s, c.Recs, "f")
 	c.G = c19GenFilter(t, s, c.Recs, "g")
+	// The same regular expression once as a line filter (a search) and once as a label matcher
+	// (anchored), with a label value that contains the text without being it.
+	if c.F.Kind == "linefilter" && (c.F.Op == "|~" || c.F.Op == "!~") && len(s.Labels) > 0 && len(c.Recs) > 0 && rapid.IntRange(0, 2).Draw(t, "same-regexp-twice") == 0 {
+		if _, err := regexp.Compile("^(?:" + string(c.F.Value) + ")$"); err == nil && utf8.ValidString(string(c.F.Value)) {
+			label := s.Labels[rapid.IntRange(0, len(s.Labels)-1).Draw(t, "same-regexp-label")].Name
+			c.G = gen.Stage{Kind: "labelfilter", Pred: &gen.Pred{Kind: "match", Label: label, Op: rapid.SampledFrom([]string{"=~", "!~"}).Draw(t, "same-regexp-op"), Str: c.F.Value}}
+			// some record carries a value the expression finds but does not cover, another one a
+			// value it covers exactly (where the needle is a plain literal)
+			if lit := string(c.F.Value); regexp.QuoteMeta(lit) == lit && lit != "" {
+				c.Recs[rapid.IntRange(0, len(c.Recs)-1).Draw(t, "same-regexp-rec")].Labels[label] = "x" + lit + "y"
+				c.Recs[rapid.IntRange(0, len(c.Recs)-1).Draw(t, "same-regexp-rec2")].Labels[label] = lit
+			}
+		}
+	}
 	// A case-insensitive literal filter meets a line with the characters whose case folding is
 	// special for exactly that literal.
 	if s.Format == "plain" && len(c.Recs) > 0 {
